@@ -329,11 +329,19 @@ def impl_mergeset(a: Sequence[int], b: Sequence[int], enum: bool) -> str:
                 _types.SetOfEnumerationLiteralsConstraint(en, [en.literals[v] for v in a]),
                 _types.SetOfEnumerationLiteralsConstraint(en, [en.literals[v] for v in b]),
             )
+            if isinstance(r, tuple):  # (constraint, error message) since the repair of C15-F1
+                if r[1] is not None:
+                    return "err"
+                r = r[0]
             return _enc_nats([x.i for x in r.literals])
         r2 = _inline._merge_set_of_primitives_constraints(
             _types.SetOfPrimitivesConstraint(intermediate.PrimitiveType.STR, _prim_lits(a)),
             _types.SetOfPrimitivesConstraint(intermediate.PrimitiveType.STR, _prim_lits(b)),
         )
+        if isinstance(r2, tuple):
+            if r2[1] is not None:
+                return "err"
+            r2 = r2[0]
         return _enc_nats([int(x.value[1:]) for x in r2.literals])
 
     return _call(go)
@@ -428,6 +436,18 @@ def judge_intersect(lists: Sequence[Sequence[int]], got: str, what: str) -> List
         dup = any(len(set(l)) != len(l) for l in lists)
         return [(f"C15:{what}:wrong-members" + (":duplicates" if dup else ""), f"literal {x} is wrongly {'kept' if x in res else 'dropped'}")]
     return []
+
+
+def judge_mergeset(a: Sequence[int], b: Sequence[int], got: str) -> List[Tuple[str, str]]:
+    """The merge of two literal sets: the common literals, and an error exactly when there is none."""
+    common = set(a) & set(b)
+    if got == "err":
+        return [("C15:mergeset:spurious-error", f"literal {sorted(common)[0]} is common to both sets but a contradiction is reported")] if common else []
+    if got.startswith("crash:"):
+        return judge_intersect([a, b], got, "mergeset")
+    if not common:
+        return [("C15:mergeset:unsat-not-reported", f"sets without a common literal merged to {got} without an error")]
+    return judge_intersect([a, b], "ok " + got, "mergeset")
 
 
 def judge_mergepats(a: Sequence[int], b: Sequence[int], got: str) -> List[Tuple[str, str]]:
@@ -565,7 +585,7 @@ def direct_judge(q: Dict[str, Any], got: str) -> List[Tuple[str, str]]:
     if fn == "intersect":
         return [] if not q["lists"] else judge_intersect(q["lists"], got, "intersect")
     if fn == "mergeset":
-        return judge_intersect([q["a"], q["b"]], got if got.startswith("crash:") else "ok " + got, "mergeset")
+        return judge_mergeset(q["a"], q["b"], got)
     if fn == "mergepats":
         return judge_mergepats(q["a"], q["b"], got)
     raise ValueError(fn)
@@ -583,7 +603,7 @@ def run_direct(ctx: Ctx, with_model: bool) -> None:
     for k, (q, got) in enumerate(keep):
         ctx.count(_strip(q), nontrivial=q["fn"] != "cmp" and len(q.get("bs", q.get("lists", [1, 2]))) > 1, stream=q["stream"])
         if q["fn"] in ("mergeset", "mergepats"):
-            ctx.hit(f"{q['fn']}:" + ("crash" if got.startswith("crash:") else "empty" if got == "[]" else "non-empty"))
+            ctx.hit(f"{q['fn']}:" + ("crash" if got.startswith("crash:") else "err" if got == "err" else "empty" if got == "[]" else "non-empty"))
         else:
             ctx.hit(f"{q['fn']}:{got.split(' ')[0].split(':')[0]}")
         if q["fn"] == "reduce" and got.startswith("ok"):
@@ -1373,6 +1393,22 @@ class MMOracle:
         return out
 
 
+def _set_unsat(orc: "MMOracle") -> List[str]:
+    """Properties (as seen in a class) whose recognised membership invariants no literal satisfies."""
+    out = []
+    for cname in orc.classes:
+        if orc.kind(cname) != "class":
+            continue
+        for prop in orc.visible_props(cname):
+            preds = orc.atoms_for(cname, prop, 0)
+            set_preds = [f for kind, f, _ in preds if kind == "set"]
+            if set_preds:
+                universe = [x for sname in sorted({s for k, _, s in preds if k == "set"}) for x in orc.ns[sname]]
+                if not any(all(f(x) for f in set_preds) for x in universe):
+                    out.append(f"{cname}.{prop}")
+    return out
+
+
 def admit_dims(c: Any, v: Any) -> Dict[str, bool]:
     """Which of the inferred length range / pattern list / literal set (infer_for_schema.Constraints or None) admit v."""
     dims = {"len": True, "pattern": True, "set": True}
@@ -1421,7 +1457,7 @@ def judge_mm(source: str, st: Any, verdict: str, raw: Any) -> List[Tuple[str, st
     orc = MMOracle(source)
     unsat = orc.len_unsat()
     if verdict == "err":
-        if unsat or orc.justified_errors():
+        if unsat or orc.justified_errors() or _set_unsat(orc):
             return []
         return [("C15:mm:spurious-error", "errors reported although the recognised constraints are satisfiable")]
     bad: List[Tuple[str, str]] = []
@@ -1655,7 +1691,7 @@ KITS: List[Dict[str, Any]] = [
     {"L": ["self.alpha in Set_ab"], "R": ["self.alpha in Set_bc"]},
     {"L": ["self.alpha in Set_ab"], "R": ["self.alpha in Set_ab"], "D": ["self.alpha in Set_bc"]},
     {"T": ["self.alpha in Set_bc"], "R": ["self.alpha in Set_ab"]},
-    {"L": ["self.alpha in Set_ab"], "R": ["self.alpha in Set_c"]},  # no common literal: known finding C15-F1
+    {"L": ["self.alpha in Set_ab"], "R": ["self.alpha in Set_c"]},  # no common literal: must be reported (former finding C15-F1)
     {"L": ["self.eta in Set_warm"], "R": ["self.eta is None or self.eta in Set_cold"]},
     # different kinds meet on one property
     {"L": ["len(self.alpha) >= 2"], "R": ["matches_as(self.alpha)"], "D": ["self.alpha in Set_bc"]},
